@@ -205,6 +205,10 @@ func finePlan(prop, tier string) []PlanItem {
 			PlanItem{fineAcquire("fine/stop-vs-becomeLeader", Item{Do: "stop"}), p},
 			PlanItem{fineTwoWinners("fine/two-winners-of-one-instance"), p})
 	case "C02":
+		// a stop that loses the race leaves a claim behind: watched until the record has lapsed
+		long := fineAcquire("fine/stop-vs-becomeLeader-then-expiry", Item{Do: "stop"})
+		long.Horizon = long.TTL + 3*long.H
+		items = append(items, PlanItem{long, p})
 		// no outside writer here: C02 assumes that only the elections touch the record
 		items = append(items,
 			PlanItem{fineAcquire("fine/stop-vs-becomeLeader", Item{Do: "stop"}), p},
@@ -217,7 +221,9 @@ func finePlan(prop, tier string) []PlanItem {
 			PlanItem{fineAcquire("fine/stopctx-vs-becomeLeader", Item{Do: "stopctx", DeleteKey: true}), p},
 			PlanItem{fineDemote("fine/stop-vs-demotion", Item{Do: "stop"}), p},
 			PlanItem{fineGraceStop("fine/stop-vs-grace-expiry", Item{Do: "stop"}), p},
-			PlanItem{fineGraceStop("fine/stopctx-vs-grace-expiry", Item{Do: "stopctx", DeleteKey: true}), p})
+			PlanItem{fineGraceStop("fine/stopctx-vs-grace-expiry", Item{Do: "stopctx", DeleteKey: true}), p},
+			PlanItem{fineStopDisconnect("fine/stop-vs-disconnect", Item{Do: "stop"}), p},
+			PlanItem{fineStopDisconnect("fine/stopctx-vs-disconnect", Item{Do: "stopctx", DeleteKey: true}), p})
 	case "C07":
 		items = append(items, PlanItem{fineFailover("fine/failover-watch-vs-becomeLeader"), p})
 		late := fineFailover("fine/failover-late-watch-vs-becomeLeader")
